@@ -10,7 +10,7 @@ import (
 func init() { register("C02", propC02) }
 
 func propC02(r *Report, tier string) {
-	r.Explanation = "Structural necessary conditions of 'a search returns exactly the live matching documents' (hit-set side only): (a) K8 every posting / doc-number source opened for a reader subtracts that segment's exclusion bitmap (no deleted document can be returned from scorch); (b) score:none bitmap algebra (unadorned optimisations): per-segment state is re-initialised in every iteration of the per-segment loop, and bitmaps obtained from ActualBitmap() (shared with every other reader of the segment) are only combined through allocating operations, never mutated in place; (c) K12 compound searchers never advance a child that is already at/after the target (a match would be lost), BooleanSearcher's cursor derivation agrees at all sites; (d) K13 every concrete query type's Searcher returns a non-nil searcher or a non-nil error. (g) K8 a successor helper whose result is used as the exclusive end of a prefix range over its own argument drops the overflowed bytes (x[:i+1]); (h) K14 the unadorned disjunction builds each per-segment result from all of its input collections unless the ignored one is provably empty; (i) K6 a nil ActualBitmap() is treated as 'skip', or as 'empty' only after DocNum1Hit() was excluded (1-hit postings of merged segments have no bitmap)."
+	r.Explanation = "Structural necessary conditions of 'a search returns exactly the live matching documents' (hit-set side only): (a) K8 every posting / doc-number source opened for a reader subtracts that segment's exclusion bitmap (no deleted document can be returned from scorch); (b) score:none bitmap algebra (unadorned optimisations): per-segment state is re-initialised in every iteration of the per-segment loop, and bitmaps obtained from ActualBitmap() (shared with every other reader of the segment) are only combined through allocating operations, never mutated in place; (c) K12 compound searchers never advance a child that is already at/after the target (a match would be lost), BooleanSearcher's cursor derivation agrees at all sites; (d) K13 every concrete query type's Searcher returns a non-nil searcher or a non-nil error. (g) K8 a successor helper whose result is used as the exclusive end of a prefix range over its own argument drops the overflowed bytes (x[:i+1]); (h) K14 the unadorned disjunction builds each per-segment result from all of its input collections unless the ignored one is provably empty; (i) K6 a nil ActualBitmap() is treated as 'skip', or as 'empty' only after DocNum1Hit() was excluded (1-hit postings of merged segments have no bitmap). (j) K14 the composite bitmap optimisation cannot reach Finish() in an iteration that skipped the child's Optimize call: a child that cannot take part vetoes the optimisation."
 	r.NotCovered = "the meaning of each query kind (term/phrase/fuzzy/regexp/range semantics), analysis, independence of the hit set from scoring options beyond (b), upsidedown reader correctness, correctness of the compound merge loops"
 	ruleExclusionAtReadSites(r, "K8-exclusion-at-read-sites")
 	rulePerSegmentStateReset(r, "K5-per-segment-state-reset")
@@ -25,6 +25,7 @@ func propC02(r *Report, tier string) {
 	rulePooledMatchResetIsTotal(r, "K9b-pooled-match-reset-total")
 	ruleHeapRestoredBeforePeek(r, "K5-heap-restored-before-peek")
 	ruleOptimisedDisjunctionKeepsMin(r, "K12-optimised-disjunction-keeps-min")
+	ruleCompositeOptimisationCoversAllChildren(r, "K14-composite-optimisation-covers-all-children")
 	ruleSearcherCountIsAnEstimate(r, "K7-searcher-count-is-an-estimate")
 	ruleMustNotGetsMatchAllBase(r, "K5-must-not-gets-match-all-base")
 	ruleCarryLoopCoversIndexZero(r, "K8-carry-loop-covers-index-zero", func(rel string) bool { return rel == "index/scorch" || rel == "search/searcher" }, 2)
@@ -267,4 +268,92 @@ func ruleQuerySearcherNeverNilNil(r *Report, rule string) {
 	if n < 20 {
 		undecidedf("only %d query Searcher methods found", n)
 	}
+}
+
+// ruleCompositeOptimisationCoversAllChildren (K14): optimizeCompositeSearcher
+// replaces a conjunction/disjunction by ONE reader built from its children's
+// postings.  That reader stands for the whole clause list only if every child
+// contributed: inside the loop over the children no iteration may go on - and
+// finally reach Finish() - without having passed the child's Optimize call (a
+// child that is not Optimizable has to veto the optimisation by leaving the
+// function).  Skipping such a child silently drops its clause.
+func ruleCompositeOptimisationCoversAllChildren(r *Report, rule string) {
+	p := r.P
+	fi := p.MustFunc("search/searcher.optimizeCompositeSearcher")
+	r.Fn(fi)
+	info := fi.Pkg.TypesInfo
+	g := buildCFG(info, fi.Decl.Body)
+	sig := fi.Obj.Type().(*types.Signature)
+	children := map[types.Object]bool{}
+	for i := 0; i < sig.Params().Len(); i++ {
+		if sl, ok := sig.Params().At(i).Type().Underlying().(*types.Slice); ok {
+			if nt := namedOf(sl.Elem()); nt != nil && nt.Obj().Name() == "Searcher" {
+				children[sig.Params().At(i)] = true
+			}
+		}
+	}
+	var opt, finish *ast.CallExpr
+	nOpt := 0
+	for _, c := range callsIn(fi.Decl.Body) {
+		f := callee(info, c)
+		if f == nil {
+			continue
+		}
+		switch f.Name() {
+		case "Optimize":
+			opt = c
+			nOpt++
+		case "Finish":
+			finish = c
+		}
+	}
+	if opt == nil || finish == nil || nOpt != 1 || len(children) != 1 {
+		undecidedf("%s: Optimize/Finish protocol not recognised", fi.Name)
+	}
+	var body *ast.BlockStmt
+	for _, anc := range enclosing(fi.Decl.Body, opt) {
+		switch l := anc.(type) {
+		case *ast.RangeStmt:
+			if children[objOf(info, l.X)] {
+				body = l.Body
+			}
+		case *ast.ForStmt:
+			if l.Cond != nil {
+				ast.Inspect(l.Cond, func(y ast.Node) bool {
+					if ce, ok := y.(*ast.CallExpr); ok && calleeBuiltin(info, ce) == "len" && len(ce.Args) == 1 && children[objOf(info, ce.Args[0])] {
+						body = l.Body
+					}
+					return true
+				})
+			}
+		}
+	}
+	ok := false
+	if body != nil && len(body.List) > 0 {
+		var start ast.Node
+		ast.Inspect(body, func(y ast.Node) bool {
+			if start != nil || y == nil {
+				return false
+			}
+			if _, located := g.Locate(y); located && y != ast.Node(body) {
+				start = y
+				return false
+			}
+			return true
+		})
+		// the first located node of the body may be the Optimize statement's own operand; start before it
+		ok = start != nil && (nodeContains(start, opt) || !g.reachesAvoiding(start, finish, opt))
+	}
+	r.Ob(rule, fi.Name+"/every-child-optimised-or-veto", opt.Pos(), ok, "inside the loop over the children an iteration can reach Finish() without the child's Optimize call: a child that cannot take part is skipped instead of cancelling the optimisation, and its clause disappears from the result")
+}
+
+func nodeContains(outer, inner ast.Node) bool {
+	found := false
+	ast.Inspect(outer, func(n ast.Node) bool {
+		if n == inner {
+			found = true
+		}
+		return !found
+	})
+	return found
 }
